@@ -29,6 +29,20 @@ Clauses (one case = spec + region index):
                              their locations
   parent-bio-qualifiers-unchanged   ... and the qualifiers of its features
   parent-record-unchanged    the secmet Record is unchanged
+
+Oracles are set-of-bases computations on plain coordinates (`positions`, `region_positions`): a feature is
+a tuple of base positions in transcription order, the region is the list of its bases in file order, and
+"shifted so that it still covers the same bases" is equality of the position tuples after mapping.
+`reloaded-same-content` compares two loaded records through `region_view` (positions relative to the
+region, typed attributes, qualifiers other than the renumbered ones; derived member-gene lists and the
+strand/order of areas are not content). The reference is the region as loaded from the full GenBank
+output, so that what the serialisation itself changes (property C10) is not counted here; the
+`region_number` qualifier and the 'Orig. start/end' comment are not part of the property and not checked.
+After a write that raised nothing more is demanded of that record (the property speaks of written files).
+
+Cases whose region has a feature under which a clause is known to fail on the pinned tree (see
+`_RecordRun.tags`, RELEVANT) are reported as '<clause>@<tag+tag>', all others under the bare clause name;
+FINDING_CLASSES only ever match the '@' names.
 """
 from __future__ import annotations
 
@@ -43,10 +57,11 @@ from typing import Any
 
 RULE = ("every region of every record of the C10 spec families (length 360, six genes on a 60-base raster; "
         "1-3 protoclusters over contiguous anchors x neighbourhood 0/15/45, subregions, sideloaded areas, "
-        "17 gene shapes x 15 decorations; linear and circular, regions at 0, at the record end, over the "
-        "origin, containing origin-spanning genes, first and later regions), written in turn from one shared "
-        "SeqRecord as main.write_outputs does. Non-trivial = the region holds >= 1 gene and >= 3 feature "
-        "types; distinct = distinct (spec, region index).")
+        "17 gene shapes x 15 decorations, hand-made layouts off the raster; linear and circular, regions at 0, "
+        "at the record end, over the origin, over the whole circle, containing origin-spanning genes, first and "
+        "later regions, several candidates/subregions, prepeptides), written in turn from one shared SeqRecord "
+        "as main.write_outputs does; thorough adds the larger families and seeded random records. "
+        "Non-trivial = the region holds >= 1 gene and >= 3 feature types; distinct = distinct (spec, region index).")
 EXHAUSTIVE = {"quick": True, "thorough": False}
 N_SHARDS = 48
 
@@ -122,8 +137,8 @@ def bio_snapshot(bio: Any) -> dict:
 # ---------------------------------------------------------------------------------------------
 # views used to compare loaded records
 
-def _identity_proto(proto: Any, rel: Any) -> list:
-    return [proto.product, type(proto).__name__, rel(proto.location), rel(proto.core_location)]
+def _identity_proto(proto: Any, area: Any) -> list:
+    return [proto.product, type(proto).__name__, area(proto.location), area(proto.core_location)]
 
 
 def region_view(record: Any, region: Any, mapping: dict | None) -> dict:
@@ -152,6 +167,8 @@ def region_view(record: Any, region: Any, mapping: dict | None) -> dict:
             typed = observe._typed(feature)  # pylint: disable=protected-access
             typed.pop("modules", None)
             typed.pop("in_region", None)
+            if typed["class"] == "ExternalCDSMotif":
+                typed["domain_id"] = None       # generated from the coordinates on load
             if "gene_functions" in typed:
                 # as written: the parsing of gene function texts is C10's subject
                 typed["gene_functions"] = sorted(str(a) for a in feature.gene_functions)
@@ -160,17 +177,22 @@ def region_view(record: Any, region: Any, mapping: dict | None) -> dict:
             features.append([feature.type, where, typed, quals])
     features.sort(key=repr)
 
-    protos = sorted((_identity_proto(p, rel) + [p.product_category, p.tool, p.cutoff, p.neighbourhood_range,
-                                                 p.detection_rule] for p in region.get_unique_protoclusters()),
+    def area(location: Any) -> Any:
+        """ the bases of an area (areas have no direction; their strand is whatever connect_locations gave) """
+        where = rel(location)
+        return None if where is None else sorted(where[1])
+
+    protos = sorted((_identity_proto(p, area) + [p.product_category, p.tool, p.cutoff, p.neighbourhood_range,
+                                                  p.detection_rule] for p in region.get_unique_protoclusters()),
                     key=repr)
     # the order of a candidate's protoclusters (and so of its products) follows the coordinates, which
     # legitimately differ between a circular record and its linearised extract: compared as sets
-    candidates = sorted(([str(c.kind), rel(c.location), sorted(_identity_proto(p, rel) for p in c.protoclusters),
+    candidates = sorted(([str(c.kind), area(c.location), sorted(_identity_proto(p, area) for p in c.protoclusters),
                           sorted(c.products)] for c in region.candidate_clusters), key=repr)
-    subregions = sorted(([s.tool, s.label, type(s).__name__, rel(s.location),
+    subregions = sorted(([s.tool, s.label, type(s).__name__, area(s.location),
                           dict(getattr(s, "extra_qualifiers", {}) or {})] for s in region.subregions), key=repr)
     return {"features": features, "protoclusters": protos, "candidates": candidates, "subregions": subregions,
-            "region": [rel(region.location), sorted(region.products)]}
+            "region": [area(region.location), sorted(region.products)]}
 
 
 # ---------------------------------------------------------------------------------------------
@@ -195,6 +217,7 @@ class _RecordRun:
         self.full_features = [(f.type, strand_of(f.location), positions(f.location),
                                _plain_quals(f.qualifiers)) for f in self.bio.features]
         self.full_reloaded = None
+        self.broken = False
         self.tmpdir = tempfile.mkdtemp(prefix="c12-")
         if self.regions:
             self.full_reload()      # from the pristine SeqRecord, before any region is written
@@ -233,8 +256,31 @@ class _RecordRun:
                 tags.append("numbers-not-contiguous")
         if len(region.location.parts) > 1:
             tags.append("origin-region")
+            if len(region_positions(region)) == len(self.record):
+                tags.append("whole-circle-region")
         if index > 0:
             tags.append("later-region")
+        # on load antismash numbers the areas by their order in the extract (start, then longer first);
+        # is that the order of their numbers in the full record?
+        relmap = {pos: i for i, pos in enumerate(region_positions(region))}
+        for areas, number in ((region.get_unique_protoclusters(), lambda a: a.get_protocluster_number()),
+                              (region.candidate_clusters, lambda a: a.get_candidate_cluster_number()),
+                              (region.subregions, lambda a: a.get_subregion_number())):
+            by_number = sorted(areas, key=number)
+            keys = []
+            for area in by_number:
+                rel = [relmap.get(p, -1) for p in positions(area.location)]
+                keys.append((min(rel), -len(rel)))
+            if any(later < earlier for earlier, later in zip(keys, keys[1:])):
+                tags.append("extract-order-differs")
+        # a gene with codon_start: a member of the region by its shifted location, but written unshifted
+        for cds in region.cds_children:
+            shift = cds._original_codon_start  # pylint: disable=protected-access
+            if shift:
+                low, high = min(positions(cds.location)), max(positions(cds.location))
+                written = set(range(low - shift, high + 1)) if cds.location.strand != -1 else set(range(low, high + 1 + shift))
+                if not written <= set(relmap):
+                    tags.append("frameshifted-gene-cut")
         # shapes of the features inside the region (plain coordinates of the full record's features)
         mapping = {pos: i for i, pos in enumerate(region_positions(region))}
         inside = set(mapping)
@@ -257,6 +303,10 @@ class _RecordRun:
             relative = [mapping[p] for p in pos]
             if any((b - a) * strand < 0 for a, b in zip(relative, relative[1:])):
                 tags.append("parts-against-strand")
+            # several exons from the first to the last base of the extract
+            if (min(relative) == 0 and max(relative) == len(mapping) - 1
+                    and any(abs(b - a) != 1 for a, b in zip(relative, relative[1:]))):
+                tags.append("exons-span-region")
         return sorted(set(tags))
 
     # -- one region ------------------------------------------------------------------------
@@ -282,8 +332,10 @@ class _RecordRun:
             region.write_to_genbank(filename=f"region{index}.gbk", directory=self.tmpdir, record=self.bio)
             results.append(("write-ok", True, ""))
         except Exception:  # pylint: disable=broad-except
+            # the property speaks of written files: nothing more is demanded after a failed write, and
+            # the shared SeqRecord is left half-modified (the pipeline would have stopped here)
             results.append(("write-ok", False, traceback.format_exc(limit=8)))
-            self._parent_checks(results)
+            self.broken = True
             return results, nontrivial
 
         with open(path, encoding="utf-8") as handle:
@@ -573,6 +625,8 @@ def run_record(spec: dict, run: Any, only: int | None = None) -> list[str]:
         for index in range(len(state.regions)):
             if only is not None and index > only:
                 break
+            if state.broken:
+                break
             results, nontrivial = state.evaluate(index)
             if only is not None and index != only:
                 continue
@@ -607,8 +661,11 @@ def run_shard(shard: dict, run: Any) -> None:
             return
         run_record(spec, run)
     if tier == "thorough":
-        while not run.out_of_time():
+        # seeded random records until the budget is used (a fixed number when there is no deadline)
+        done = 0
+        while not run.out_of_time() and (run.deadline or done < 150):
             run_record(specs.random_spec(run.rng), run)
+            done += 1
 
 
 def replay(case: dict) -> list[str]:
@@ -617,18 +674,23 @@ def replay(case: dict) -> list[str]:
 
 # input features under which a clause is known to fail on the pinned tree: such cases are counted under
 # their own clause name '<clause>@<tags>' so that they neither hide nor crowd out the others
-_LOADING_TAGS = ["first-candidate>1", "first-subregion>1", "prepeptide-cut", "prepeptide-post-origin",
-                 "origin-feature-outside", "numbers-not-contiguous"]
+_CONTENT_TAGS = ["prepeptide-cut", "prepeptide-post-origin", "origin-feature-outside", "numbers-not-contiguous",
+                 "whole-circle-region", "exons-span-region", "extract-order-differs", "frameshifted-gene-cut"]
+_LOADING_TAGS = ["first-candidate>1", "first-subregion>1"] + _CONTENT_TAGS
 RELEVANT = {
-    "numbering-from-1": ["numbers-not-contiguous"],
-    "candidate-protocluster-refs": ["numbers-not-contiguous"],
-    "region-candidate-refs": ["first-candidate>1", "numbers-not-contiguous"],
-    "region-subregion-refs": ["first-subregion>1", "numbers-not-contiguous"],
+    "write-ok": ["origin-feature-outside"],
+    "sequence": ["whole-circle-region"],
+    "numbering-from-1": ["numbers-not-contiguous", "whole-circle-region"],
+    "candidate-protocluster-refs": ["numbers-not-contiguous", "whole-circle-region"],
+    "core-locations": ["whole-circle-region"],
+    "region-candidate-refs": ["first-candidate>1", "numbers-not-contiguous", "whole-circle-region"],
+    "region-subregion-refs": ["first-subregion>1", "numbers-not-contiguous", "whole-circle-region"],
     "reloads-one-region": _LOADING_TAGS,
     "reloaded-same-content": _LOADING_TAGS + ["parts-against-strand"],
+    "reloaded-after-ref-repair": _CONTENT_TAGS + ["parts-against-strand"],
     "parent-bio-qualifiers-unchanged": ["origin-region"],
     "prepeptide-locations": ["prepeptide-cut", "prepeptide-post-origin"],
-    "features-same-bases": ["parts-against-strand", "origin-feature-outside"],
+    "features-same-bases": ["parts-against-strand", "origin-feature-outside", "whole-circle-region"],
 }
 
 
@@ -644,7 +706,7 @@ def _known(clause: str, case: Any, clauses: tuple, tag: str) -> bool:
     return base in clauses and tag in suffix.split("+") and tag in case.get("tags", [])
 
 
-_LOADING = ("reloads-one-region", "reloaded-same-content")
+_LOADING = ("reloads-one-region", "reloaded-same-content", "reloaded-after-ref-repair")
 
 FINDING_CLASSES: dict[str, Any] = {
     # the region feature's candidate_cluster_numbers keep the numbers of the full record
@@ -653,19 +715,32 @@ FINDING_CLASSES: dict[str, Any] = {
     "C12-F2": lambda clause, case: _known(clause, case, ("region-subregion-refs",) + _LOADING, "first-subregion>1"),
     # qualifiers of the parent's own origin-crossing features are rewritten and not restored
     "C12-F3": lambda clause, case: _known(clause, case, ("parent-bio-qualifiers-unchanged",), "origin-region"),
-    # a prepeptide core inside the region whose leader/tail is cut off by the region boundary
-    "C12-F4": lambda clause, case: _known(clause, case, ("prepeptide-locations",) + _LOADING, "prepeptide-cut"),
     # leader/tail locations after the origin of an origin-spanning region become negative
-    "C12-F5": lambda clause, case: _known(clause, case, ("prepeptide-locations",) + _LOADING, "prepeptide-post-origin"),
+    "C12-F4": lambda clause, case: _known(clause, case, ("prepeptide-locations",) + _LOADING, "prepeptide-post-origin"),
     # a feature with parts on both sides of the origin that does not cross it in strand order is dropped
-    "C12-F6": lambda clause, case: _known(clause, case, ("features-same-bases", "reloaded-same-content"),
-                                          "parts-against-strand"),
+    "C12-F5": lambda clause, case: _known(clause, case, ("features-same-bases", "reloaded-same-content",
+                                                         "reloaded-after-ref-repair"), "parts-against-strand"),
     # every origin-crossing feature of the record is put into the file of an origin-spanning region,
     # also those not inside it (they then lie outside the extracted sequence)
-    "C12-F7": lambda clause, case: _known(clause, case, ("features-same-bases",) + _LOADING, "origin-feature-outside"),
+    "C12-F6": lambda clause, case: _known(clause, case, ("write-ok", "features-same-bases") + _LOADING,
+                                          "origin-feature-outside"),
     # 'n - first + 1' leaves gaps when the region's area numbers are not consecutive (origin-spanning
     # region holding the first and the last areas of the record)
-    "C12-F8": lambda clause, case: _known(clause, case, ("numbering-from-1", "candidate-protocluster-refs",
+    "C12-F7": lambda clause, case: _known(clause, case, ("numbering-from-1", "candidate-protocluster-refs",
                                                          "region-candidate-refs", "region-subregion-refs") + _LOADING,
                                           "numbers-not-contiguous"),
+    # a region over the whole circle that does not start at 0: features over the whole record ([0:L),
+    # e.g. the source feature or a whole-record candidate) are in neither slice and do not cross the origin
+    "C12-F8": lambda clause, case: _known(clause, case, ("sequence", "features-same-bases", "numbering-from-1", "core-locations",
+                                                         "candidate-protocluster-refs", "region-candidate-refs",
+                                                         "region-subregion-refs") + _LOADING, "whole-circle-region"),
+    # a multi-exon feature from the first to the last base of the extract is refused on load as an
+    # 'origin spanning exon in a linear record'
+    "C12-F9": lambda clause, case: _known(clause, case, _LOADING, "exons-span-region"),
+    # numbers are resolved by position in the sorted area lists on load: in the extract of an origin-spanning
+    # region the areas can sort differently than in the full record, so 'n - first + 1' names other areas
+    "C12-F10": lambda clause, case: _known(clause, case, _LOADING, "extract-order-differs"),
+    # a partial gene with codon_start whose shifted location starts exactly at the region start: its
+    # domains/modules are extracted, the CDS itself (written unshifted) is not
+    "C12-F11": lambda clause, case: _known(clause, case, _LOADING, "frameshifted-gene-cut"),
 }
